@@ -88,6 +88,7 @@ struct Plan {
     string prop = "C13", cfg = "nofault";
     uint64_t seed = 0, fill = 1; int nobj = 1; long long index = -1;
     string locale = "C";    // process locale while the plan runs
+    int cs = 0;         // converter style of this plan (simrt.h: g_sim_conv_style); every build of a lock-step run uses the same
     int amode = 0;      // how the caller holds the address: 0 exact-size fresh block per call, 1 one reused buffer per object, 2 one reused buffer for all objects
     vector<Op> ops;
 };
@@ -105,7 +106,7 @@ static sj::Value op_to_json(const Op &op) {
 static sj::Value plan_to_json(const Plan &p) {
     sj::Value j = sj::Value::object();
     j.set("prop", p.prop); j.set("cfg", p.cfg); j.set("seed", (long long)p.seed); j.set("index", p.index);
-    j.set("fill", (long long)p.fill); j.set("nobj", p.nobj); j.set("amode", p.amode); j.set("locale", p.locale);
+    j.set("fill", (long long)p.fill); j.set("nobj", p.nobj); j.set("amode", p.amode); j.set("locale", p.locale); if (p.cs) j.set("cs", p.cs);
     sj::Value a = sj::Value::array();
     for (auto &op : p.ops) a.push(op_to_json(op));
     j.set("ops", a);
@@ -115,7 +116,7 @@ static Plan plan_from_json(const sj::Value &j) {
     Plan p;
     p.prop = j.gets("prop", "C13"); p.cfg = j.gets("cfg", "nofault");
     p.seed = (uint64_t)j.geti("seed"); p.fill = (uint64_t)j.geti("fill", 1); p.nobj = (int)j.geti("nobj", 1);
-    p.index = j.geti("index", -1); p.amode = (int)j.geti("amode", 0); p.locale = j.gets("locale", "C");
+    p.index = j.geti("index", -1); p.amode = (int)j.geti("amode", 0); p.locale = j.gets("locale", "C"); p.cs = (int)j.geti("cs", 0);
     if (p.nobj < 1) p.nobj = 1;
     if (p.nobj > 8) p.nobj = 8;
     const sj::Value *ops = j.get("ops");
@@ -399,6 +400,7 @@ static Plan gen_history(const string &prop, const string &cfg, uint64_t seed, lo
     if (sim_below(&w, 25) == 0) p.nobj = 4 + (int)sim_below(&w, 5);      // many objects alive at once (fixed-size registries)
     p.amode = (int)sim_below(&w, 3);
     p.locale = sim_below(&w, 4) == 0 ? "C.UTF-8" : "C";
+    { sim_rng cr = sim_derive(rs, 9); if (sim_below(&cr, 6) == 0) p.cs = 1; }      // one plan in six: the IDNA2003-style converter
     int len;
     unsigned lc = (unsigned)sim_below(&w, 100);
     if (lc < 35) len = 1 + (int)sim_below(&w, 8);
@@ -569,7 +571,8 @@ static Plan gen_small(const string &prop, uint64_t seed, long long index) {
 // corpus sweep (C18 lock-step): every pool address in every mode with tld_check off and on through ONE reused object
 static Plan gen_corpus(const string &prop, uint64_t seed, long long index) {
     Plan p; p.prop = prop; p.cfg = "corpus"; p.seed = seed; p.index = index; p.nobj = 1; p.fill = sim_mix64(seed ^ (uint64_t)index ^ 0xc0);
-    const size_t CH = 20; size_t lo = (size_t)index * CH;
+    const size_t CH = 20; size_t lo = (size_t)(index / 2) * CH;
+    p.cs = (int)(index % 2);        // every chunk once per converter style
     for (int m = 0; m < 4; m++) for (int t = 0; t < 2; t++) {
         Op a; a.k = SET_RFC; a.v = m; p.ops.push_back(a);
         Op b; b.k = SETUP; p.ops.push_back(b);
@@ -865,6 +868,7 @@ struct Exec {
 
     void run() {
         if (!setlocale(LC_ALL, plan.locale.c_str())) setlocale(LC_ALL, "C");
+        g_sim_conv_style = plan.cs;
         sim_ledger_reset(plan.fill);
         sim_ctx_reset();
         sim_conv_begin(0, 0, 0);
@@ -1487,7 +1491,7 @@ static void probe() {
     j.set("pool_emails", (long long)G.emails.size()); j.set("pool_idn", (long long)G.idn.size());
     j.set("pool_generated", (long long)G.gen.size()); j.set("pool_converter_reaching", (long long)G.conv.size());
     j.set("pool_domains", (long long)G.domains.size()); j.set("pool_all", (long long)G.all.size());
-    j.set("corpus_plans", (long long)((G.all.size() + 19) / 20));
+    j.set("corpus_plans", (long long)(2 * ((G.all.size() + 19) / 20)));
     { sj::Value sc = sj::Value::array(); for (int l = 1; l <= 6; l++) sc.push(sj::Value::integer(small_count(l))); j.set("small_scope_plans_up_to_length", sc); }
     int def_allow = 0x2f8;
     std::set<string> uniq(G.all.begin(), G.all.end());
